@@ -219,21 +219,21 @@ Definition r_cmp_expr (op : cmpop) (sk : src_kind) (c : cmp_field) : toks :=
           by_fn fn_ident
             (tparen (q "__this :" ++ reft ++ q ", __other :" ++ reft ++ q ", __by : impl :: core :: ops :: Fn" ++
                      tparen two_refs ++ q "->" ++ opt_ordering))
-            (q "-> bool")
+            (q "-> :: core :: primitive :: bool")
             (q "__by ( __this , __other ) == :: core :: option :: Option :: Some ( :: core :: cmp :: Ordering :: Equal )")
             (q "&" ++ this ++ q ", &" ++ other ++ comma ++ b)
       | CEBy COrd b =>
           by_fn fn_ident
             (tparen (q "__this :" ++ reft ++ q ", __other :" ++ reft ++ q ", __by : impl :: core :: ops :: Fn" ++
                      tparen two_refs ++ q "->" ++ ordering))
-            (q "-> bool")
+            (q "-> :: core :: primitive :: bool")
             (q "__by ( __this , __other ) == :: core :: cmp :: Ordering :: Equal")
             (q "&" ++ this ++ q ", &" ++ other ++ comma ++ b)
       | CEBy _ b =>
           by_fn fn_ident
             (tparen (q "__this :" ++ reft ++ q ", __other :" ++ reft ++ q ", __by : impl :: core :: ops :: Fn" ++
-                     tparen two_refs ++ q "-> bool"))
-            (q "-> bool")
+                     tparen two_refs ++ q "-> :: core :: primitive :: bool"))
+            (q "-> :: core :: primitive :: bool")
             (q "__by ( __this , __other )")
             (q "&" ++ this ++ q ", &" ++ other ++ comma ++ b)
       end
@@ -321,7 +321,7 @@ Fixpoint index_arms (vs : list (string * shape * list fld)) (i : nat) : toks :=
   end.
 (** `build_to_index_fn` *)
 Definition to_index_fn (vs : list (string * shape * list fld)) : toks :=
-  q "let __to_index = | __this : & Self | -> usize" ++
+  q "let __to_index = | __this : & Self | -> :: core :: primitive :: usize" ++
   tbrace (q "match __this" ++ tbrace (index_arms vs 0 ++ q "_ => :: core :: unreachable ! ( ) ,")) ++ q ";".
 
 Definition arm_of {A} (x : string * shape * list fld * A) : string * shape * list fld := fst x.
@@ -421,9 +421,9 @@ Definition r_body (h : impl_hdr) (b : body) : toks :=
                         ufcs (with_ref_ty l (fl_ty f)) tr func
                              [with_ref l (self_dot "self" (fl_member f))]) fs))
   | BPartialEqStruct cs =>
-      q "fn eq ( & self , __other : & Self ) -> bool" ++ tbrace (r_cmp_fields CPartialEq SKStruct cs)
+      q "fn eq ( & self , __other : & Self ) -> :: core :: primitive :: bool" ++ tbrace (r_cmp_fields CPartialEq SKStruct cs)
   | BPartialEqEnum vs =>
-      q "fn eq ( & self , __other : & Self ) -> bool" ++ tbrace (r_cmp_enum CPartialEq vs)
+      q "fn eq ( & self , __other : & Self ) -> :: core :: primitive :: bool" ++ tbrace (r_cmp_enum CPartialEq vs)
   | BPartialOrdStruct cs =>
       q "fn partial_cmp ( & self , __other : & Self ) ->" ++ opt_ordering ++
       tbrace (r_cmp_fields CPartialOrd SKStruct cs)
